@@ -173,5 +173,15 @@ TEXT = {
                 "through the harness shim's linear_transpose (which materialises the map) and are therefore not used by this check",
         "technique": "runtime monitoring: allocation meter (tracemalloc peak) + halt-on-error event monitor on to_dense / identity-width products / dispatch path",
     },
+    "C20": {
+        "level": "Held on the executions observed: generated operator trees of every kind (square/tall/wide) x index expressions of "
+                 "every supported form (integers incl. negative, slices incl. strided/negative-step/empty, integer index arrays, "
+                 "mixed, lists), each compared with NumPy indexing of the reference matrix in value, shape and kind; sub-operators "
+                 "through to_dense and right/left products with real and complex operands.",
+        "note": _NOTE + "; two index arrays select the outer product of rows and columns (Sliced's documented semantics), two lists "
+                "select element pairs; only Python int scalars are generated (NumPy integer scalars: recorded, not judged); "
+                "out-of-range indices are not generated",
+        "technique": "runtime monitoring: differential oracle (NumPy indexing of the reference matrix) over generated index expressions",
+    },
 }
 NOT_APPLICABLE = {}
